@@ -101,6 +101,11 @@ STATEMENT_STATUS = {
     "C17_nametree_sorted": "proved: flattening of a conforming name tree is strictly ascending (keys unique)",
     "C17_outline_terminates": "proved for every finite object graph incl. cycles, shared and dangling links: budget "
                               "|store|+1 never exhausted, no object visited twice",
+    "C17_outline_graph_eq": "proved for EVERY store and every entry stored in it under distinct object ids: the graph walk with its "
+                            "visited set (the repaired code) = the term model",
+    "C17_outline_graph": "proved FULL: every forest in the domain stored as indirect objects anywhere in an object graph: "
+                         "get_outlines (graph walk) = preorder with levels",
+    "roman_value_all": "proved for every n (sanity of the specification: leading m are never subtracted)",
     "C17_outline_graph_total": "proved (get_outlines on a graph always returns)",
     "C17_nametree": "proved for every conforming name tree and every key (found value / KeyError)",
     "C17_dest": "proved: get_dest = specification for strings (name tree) and names (Dests dictionary)",
